@@ -26,8 +26,16 @@
 (*   <<"invoke", name, pos, kw, outcome, sent>>  a command is called;      *)
 (*                                  outcome <<"ok">> | <<"raise", class>>  *)
 (*   <<"end", ctx>>                 closes the trace                       *)
+(*   <<"keepapp", key>>             the application block just entered is  *)
+(*                                  an object the program keeps (entered   *)
+(*                                  again later by <<"enter", .., key>>)   *)
+(*   <<"links", up>>                the machine's live Ethernet links are  *)
+(*                                  now `up` (the environment's step)      *)
+(*   <<"fileop", n, op, outcome, sent>>  the n-th file-like view returned  *)
+(*                                  by sdram_alloc_as_filelike is read /   *)
+(*                                  written / freed                        *)
 (* sent = the datagrams put on the wire during the step.                   *)
-(* State st: [stack, discovered].                                          *)
+(* State st: [stack, objs, up, known, files].                              *)
 (***************************************************************************)
 EXTENDS Context, Json, IOUtils
 
@@ -46,6 +54,8 @@ Blind == Tr.blind = 1
 \* arguments from the object's current map, st.objs[obj].
 ObjKnown(k) == \E o \in st.objs : o[1] = k
 ObjMap(k) == (CHOOSE o \in st.objs : o[1] = k)[2]
+\* <<>>, or <<a>> when the kept object is an application block for id a
+ObjApp(k) == (CHOOSE o \in st.objs : o[1] = k)[3]
 ArgsOf(b) == IF b.obj > 0 /\ ObjKnown(b.obj) THEN ObjMap(b.obj) ELSE b.args
 Stk == [i \in 1..Len(st.stack) |-> [args |-> ArgsOf(st.stack[i]), app |-> st.stack[i].app]]
 PushObj(stack, m, app, k) == Append(stack, [args |-> m, app |-> app, obj |-> k])
@@ -58,8 +68,9 @@ TopBlock == Stk[Len(Stk)]
 All(sent, P(_)) == \A i \in 1..Len(sent) : P(sent[i])
 
 \* connections known to the machine controller in state st
-KnownConns == IF st.discovered THEN { c \in SeqSet(Tr.up) : IsEthChip(c, Tr.rx, Tr.ry) /\ InsideMachine(c[1], c[2], Tr.w, Tr.h) }
-              ELSE {}
+\* (every chip found with its link up by some discover_connections() so far: connections are kept)
+KnownConns == st.known
+Discoverable == { c \in st.up : IsEthChip(c, Tr.rx, Tr.ry) /\ InsideMachine(c[1], c[2], Tr.w, Tr.h) }
 \* "travels over the connection of the board that holds the target WHEN ONE IS KNOWN": only then is the connection
 \* pinned; otherwise any connection the controller has will do (rig uses its first one, another choice - say the
 \* nearest known board - is as good)
@@ -152,14 +163,30 @@ Checks(e) ==
     [] e[1] = "update" ->
         [UpdateInForce |-> Blind \/ AsSet(e[3]) = Merged(Update(Stk, e[2])),
          NothingSentOnUpdate |-> e[4] = <<>>]
+    [] e[1] = "keepapp" -> [KeptIsApplicationBlock |-> Len(Stk) > 1 /\ TopBlock.app # <<>>]
+    [] e[1] = "links" -> [EnvironmentStep |-> TRUE]
+    \* a file-like view stands for the chip its sdram_alloc_as_filelike call resolved: whatever blocks are open when
+    \* it is used, its commands lack nothing, go to that chip and over that chip's board's connection
+    [] e[1] = "fileop" ->
+        [KnownFile |-> e[2] \in 1..Len(st.files),
+         FileOpAccepted |-> e[4] = <<"ok">>,
+         FileChip |-> e[2] \in 1..Len(st.files) =>
+                         \A i \in 1..Len(e[5]) : DX(e[5][i]) = st.files[e[2]][1] /\ DY(e[5][i]) = st.files[e[2]][2],
+         RightConnection |-> All(e[5], ConnOk)]
     [] e[1] = "end" ->
         [AllBlocksLeft |-> Len(Stk) = 1,
          ExitRestores  |-> Blind \/ AsSet(e[2]) = Merged(SubSeq(Stk, 1, 1))]
     [] OTHER -> [UnknownEvent |-> FALSE]
 
 Apply(e) ==
-  CASE e[1] = "enter" -> [st EXCEPT !.stack = PushObj(st.stack, e[2], <<>>, e[5]),
-                                    !.objs = IF e[5] > 0 /\ ~ObjKnown(e[5]) THEN @ \cup {<<e[5], e[2]>>} ELSE @]
+  CASE e[1] = "enter" -> [st EXCEPT !.stack = PushObj(st.stack, e[2],
+                                                       IF e[5] > 0 /\ ObjKnown(e[5]) THEN ObjApp(e[5]) ELSE <<>>, e[5]),
+                                    !.objs = IF e[5] > 0 /\ ~ObjKnown(e[5]) THEN @ \cup {<<e[5], e[2], <<>>>>} ELSE @]
+    [] e[1] = "keepapp" ->
+        LET top == st.stack[Len(st.stack)]
+        IN [st EXCEPT !.stack = [@ EXCEPT ![Len(st.stack)].obj = e[2]],
+                      !.objs = @ \cup {<<e[2], top.args, top.app>>}]
+    [] e[1] = "links" -> [st EXCEPT !.up = SeqSet(e[2])]
     [] e[1] = "app" ->
         IF e[4] = <<"ok">>
         THEN LET a == IntOf(Resolved(ApplicationMeth, e[2], e[3], Stk, "app_id"))
@@ -169,10 +196,16 @@ Apply(e) ==
     [] e[1] = "update" ->
         LET top == st.stack[Len(st.stack)]
         IN IF top.obj > 0 /\ ObjKnown(top.obj)
-           THEN [st EXCEPT !.objs = { IF o[1] = top.obj THEN <<o[1], Updated(o[2], e[2])>> ELSE o : o \in @ }]
+           THEN [st EXCEPT !.objs = { IF o[1] = top.obj THEN <<o[1], Updated(o[2], e[2]), o[3]>> ELSE o : o \in @ }]
            ELSE [st EXCEPT !.stack = Update(st.stack, e[2])]
-    [] e[1] = "invoke" -> IF e[2] = "discover_connections" /\ e[5] = <<"ok">>
-                          THEN [st EXCEPT !.discovered = TRUE] ELSE st
+    [] e[1] = "invoke" ->
+        IF e[2] = "discover_connections" /\ e[5] = <<"ok">>
+        THEN [st EXCEPT !.known = @ \cup Discoverable]
+        ELSE IF e[2] = "sdram_alloc_as_filelike" /\ e[5] = <<"ok">> /\ KnownMeth(e[2])
+        THEN LET meth == MethNamed(e[2])
+             IN [st EXCEPT !.files = Append(@, <<IntOf(Resolved(meth, e[3], e[4], Stk, "x")),
+                                                 IntOf(Resolved(meth, e[3], e[4], Stk, "y"))>>)]
+        ELSE st
     [] OTHER -> st
 
 \* what a rejection line says about the event, for the reader of the VIOLATION
@@ -184,7 +217,8 @@ Detail(e) == IF e[1] = "invoke"
              ELSE e[1] \o " in force before=" \o ToString(Merged(Stk))
 Bad == LET ck == Checks(Ev) IN {c \in DOMAIN ck : ~ck[c]}
 TInit == /\ tid \in 1..Len(Traces) /\ ei = 1 /\ verdict = <<>>
-         /\ st = [stack |-> << [args |-> Traces[tid].init, app |-> <<>>, obj |-> 0] >>, discovered |-> FALSE, objs |-> {}]
+         /\ st = [stack |-> << [args |-> Traces[tid].init, app |-> <<>>, obj |-> 0] >>, objs |-> {},
+                  up |-> IF Traces[tid].kind = "mc" THEN SeqSet(Traces[tid].up) ELSE {}, known |-> {}, files |-> <<>>]
 TStep == /\ ei <= Len(Tr.ev) /\ verdict = <<>> /\ tid' = tid
          /\ LET bad == Bad
             IN IF bad = {} THEN ei' = ei + 1 /\ st' = Apply(Ev) /\ verdict' = verdict
